@@ -151,7 +151,12 @@ pub fn limit_programs() -> Vec<String> {
 }
 
 /// like `case`, but a refusal (parse/compile/serialize error) is a result too, and must be the same everywhere
-fn limit_case(ctx: &mut Ctx, text: &str) {
+fn limit_case(ctx: &mut Ctx, text: &str) { limit_case_with(ctx, text, true) }
+
+/// `as_process = false` for programs nested deeper than the 200 levels C10 quantifies over: how deep
+/// a build's native stack reaches is a resource limit (the debug binary overflows its 8 MiB stack on
+/// blocks nested 1 000 deep, the release binary does not), not a source of nondeterminism
+fn limit_case_with(ctx: &mut Ctx, text: &str, as_process: bool) {
     ctx.describe(text);
     let outcome = || -> String {
         match once(text) { Some((b, ok, out)) => format!("{:016x} {} {:016x}", fnv(&b), ok, fnv(out.as_bytes())), None => "refused".to_string() }
@@ -166,7 +171,7 @@ fn limit_case(ctx: &mut Ctx, text: &str) {
     // stack): exit status, signal and stdout go into the table too, so that the driver compares what
     // the debug and the release binary really do with programs at the limits
     // (the second release run uses the same binary as the first: no need to repeat the processes there)
-    if std::env::var("VERIF_RUN_INDEX").map_or(false, |v| v == "1") { return }
+    if !as_process || std::env::var("VERIF_RUN_INDEX").map_or(false, |v| v == "1") { return }
     let f = super::super::cli::write_file(&ctx.scratch, "limit.fml", text.as_bytes());
     let exe = ctx.exe.clone();
     let res = super::super::cli::run(&exe, &["run", f.to_str().unwrap()], None, None, &[], std::time::Duration::from_secs(120));
@@ -178,7 +183,7 @@ pub fn run(ctx: &mut Ctx) {
     let debug = cfg!(debug_assertions);
     ctx.stage("programs at the limits of the format");
     for s in limit_programs() { if ctx.take().is_some() { limit_case(ctx, &s) } }
-    for (_name, prog) in super::super::universes::scale::programs(!ctx.quick()) { if ctx.take().is_some() { limit_case(ctx, &show(&prog)) } }
+    for (name, prog) in super::super::universes::scale::programs(!ctx.quick()) { if ctx.take().is_some() { limit_case_with(ctx, &show(&prog), !name.contains("nested blocks")) } }
     ctx.stage("CORPUS + wide programs");
     let root = std::env::var("VERIF_REPO").unwrap_or("/repo".to_string());
     for p in corpus_files(&root) {
